@@ -11,6 +11,7 @@ CONSTANTS
   Foreign = {}
   FixGC = TRUE
   MidEnv = FALSE
+  Legacy = FALSE
   InitReg <- Reg2
 VIEW view
 ACTION_CONSTRAINT Emit
